@@ -103,7 +103,18 @@ def line_case(case):
         try:
             g = gfapy.Gfa(segs + [line], version=version, vlevel=vlevel)
             g.validate()
-            fail("C04:line:%s:accepts-invalid" % line[:1], repr(line))
+            why = ""
+            if version == "gfa2" and line[:1] in "EF":
+                f = line.split("\t")
+                ps = f[4:8] if line[0] == "E" else f[3:7]
+                try:
+                    if any(b.endswith("$") and e.endswith("$") and b != e for b, e in ((ps[0], ps[1]), (ps[2], ps[3]))):
+                        # both positions claim to be the last one: one of them is not. The segments of this context have no sequence ('*'), so this
+                        # is the known finding KF-dollar-not-checked-against-slen seen at line level
+                        why = ":dollar-on-two-different-positions"
+                except Exception:
+                    pass
+            fail("C04:line:%s:accepts-invalid%s" % (line[:1], why), repr(line))
         except gfapy.Error:
             pass
         except Exception as e:
